@@ -116,6 +116,60 @@ func extractSyncPeer() {
 		fail("blockmanager.go: handleInvMsg has no top-level `if … { return }`")
 	}
 	l.def("invIgnoreCond", "String", fmt.Sprintf("%q", ign), "handleInvMsg returns without reacting iff this holds")
+	// how peer messages are handed to the block handler: the select around `b.peerChan <- …` in the four entry points
+	var sends []string
+	for _, fn := range []string{"DonePeer", "NewPeer", "QueueHeaders", "QueueInv"} {
+		fd := funcDecl(f, "blockManager", fn)
+		if fd == nil {
+			fail("blockmanager.go: %s not found", fn)
+			continue
+		}
+		found := false
+		ast.Inspect(fd.Body, func(x ast.Node) bool {
+			sel, ok := x.(*ast.SelectStmt)
+			if !ok {
+				return true
+			}
+			send, quit, dflt := false, false, false
+			for _, c := range sel.Body.List {
+				cc := c.(*ast.CommClause)
+				switch comm := cc.Comm.(type) {
+				case nil:
+					dflt = true
+				case *ast.SendStmt:
+					if squeeze(src(comm.Chan)) == "b.peerChan" {
+						send = true
+					}
+				case *ast.ExprStmt:
+					if squeeze(src(comm.X)) == "<-b.quit" {
+						quit = true
+					}
+				}
+			}
+			if send {
+				found = true
+				sends = append(sends, fmt.Sprintf("(%q, %s, %s)", fn, lbool(quit), lbool(dflt)))
+			}
+			return true
+		})
+		if !found {
+			// a bare send, or no send at all
+			bare := false
+			ast.Inspect(fd.Body, func(x ast.Node) bool {
+				if st, ok := x.(*ast.SendStmt); ok && squeeze(src(st.Chan)) == "b.peerChan" {
+					bare = true
+				}
+				return true
+			})
+			if bare {
+				sends = append(sends, fmt.Sprintf("(%q, false, false)", fn))
+			} else {
+				fail("blockmanager.go: %s no longer sends on b.peerChan", fn)
+			}
+		}
+	}
+	l.def("peerChanSends", "List (String × Bool × Bool)", "["+strings.Join(sends, ", ")+"]",
+		"entry points handing a peer message to the block handler: (function, the select has `case <-b.quit`, the select has a `default` arm)")
 	l.write()
 	facts["syncpeer.sites"] = rows
 }
